@@ -27,6 +27,7 @@ RULE_TEXT = (
     "Identifier(quoted=False) constructions use constants or folded text; C02.c comparison sites: consumer-normalised | "
     "producer-normalised slot | case-significant domain | out of population, else violation; C02.d checks.equal; "
     "C02.e conn.database/schema and status names derive from folded values."
+    " C02.h names compared as string literals in generated statements are texts, never rendered identifier nodes."
 )
 TRUSTED = ["CPython ast", "parser normalisation table, each entry re-witnessed against sqlglot's parser source on every run"]
 
